@@ -9,6 +9,14 @@ Times are nanoseconds since the Unix epoch, prices/accumulators raw `Dec`s.
   spot <q0> <q1> <prevErrNs> <nowNs> -> <sp0> <sp1> <latestErrNs> | panic   (getSpotPrices; q = raw BigDec | e | nil | E<raw>)
   dump                                   -> <recent>|<record>;<record>;…
   exportimport                           -> ok | panic   (panic = Validate rejects an exported record; state unchanged)
+
+Several pools / pairs (the module state `World`; `reset` clears it too).  <pair> = <d0> <d1> <sp0> <sp1> <err01>:
+  wcreate <tNs> <height> <pool> <pair>+              -> <most recent record>;…   (afterCreatePool; one entry per listed pair)
+  wend <tNs> <height> {P <pool> <npairs> <pair>*}*   -> the same for every listed pair after Keeper.EndBlock's record loop | panic
+                                                        (pools in the order of the changed-pool store, pairs in any order)
+  wprune <lastKeptNs>                                -> ok <number of historical records left, all pairs>
+  warith|wgeom <pool> <d0> <d1> <nowNs> <startNs> <endNs> <quoteIsAsset0 01>  -> as arith|geom
+  wdump <pool> <d0> <d1>                             -> as dump
 -/
 import OsmoVerif.Model.Twap
 import OsmoVerif.Model.TwapGenesis
@@ -16,6 +24,7 @@ namespace OsmoVerif.Twap
 
 structure DrvState where
   s : Store := {}
+  w : World := []
 
 def initTwap : DrvState := {}
 
@@ -39,26 +48,91 @@ def showTwap : Res (Int × Bool) → String
   | .err => "err"
   | .panic => "panic"
 
+/-- `<d0> <d1> <sp0> <sp1> <err01>` groups, all tokens consumed. -/
+def parsePairs (pool : Nat) : List String → Option (List PairInput)
+  | [] => some []
+  | d0 :: d1 :: sp0 :: sp1 :: e :: rest =>
+    match sp0.toInt?, sp1.toInt?, parseBool e, parsePairs pool rest with
+    | some sp0, some sp1, some e, some ps => some (⟨⟨pool, d0, d1⟩, sp0, sp1, e⟩ :: ps)
+    | _, _, _, _ => none
+  | _ => none
+
+/-- `P <pool> <npairs> <pair>*` groups, all tokens consumed (fuel: the token count). -/
+def parsePools : Nat → List String → Option (List PoolInput)
+  | _, [] => some []
+  | 0, _ => none
+  | fuel + 1, "P" :: pool :: n :: rest =>
+    match pool.toNat?, n.toNat? with
+    | some pool, some n =>
+      if rest.length < 5 * n then none else
+      match parsePairs pool (rest.take (5 * n)), parsePools fuel (rest.drop (5 * n)) with
+      | some ps, some more => some (⟨pool, ps⟩ :: more)
+      | _, _ => none
+    | _, _ => none
+  | _, _ => none
+
+def showPair (w : World) (k : PairKey) : String :=
+  match w.get k with
+  | some s => (match s.recent with | some r => showRec r | none => "-")
+  | none => "-"
+
+def showPairs (w : World) (ps : List PairInput) : String := ";".intercalate (ps.map fun i => showPair w i.key)
+
 def stepTwap (st : DrvState) (op : String) (args : List String) : DrvState × String :=
   match op, args with
   | "reset", [] => ({}, "ok")
+  | "wcreate", t :: h :: pool :: rest =>
+    match t.toInt?, h.toInt?, pool.toNat? with
+    | some t, some h, some pool =>
+      match parsePairs pool rest with
+      | some ps => let w' := createPairs st.w t h ps; ({ st with w := w' }, showPairs w' ps)
+      | none => (st, "bad-op")
+    | _, _, _ => (st, "bad-op")
+  | "wend", t :: h :: rest =>
+    match t.toInt?, h.toInt?, parsePools (rest.length + 1) rest with
+    | some t, some h, some pools =>
+      match endBlock t h st.w pools with
+      | some w' => ({ st with w := w' }, showPairs w' (pools.flatMap (·.pairs)))
+      | none => (st, "panic")
+    | _, _, _ => (st, "bad-op")
+  | "wprune", [k] =>
+    match k.toInt? with
+    | some k =>
+      let w' := pruneWorld st.w k
+      ({ st with w := w' }, s!"ok {w'.foldl (fun n p => n + p.2.hist.length) 0}")
+    | none => (st, "bad-op")
+  | "warith", [pool, d0, d1, now, a, b, q] =>
+    match pool.toNat?, [now, a, b].mapM String.toInt?, parseBool q with
+    | some pool, some [now, a, b], some q => (st, showTwap (getTwapW st.w ⟨pool, d0, d1⟩ now a b q .arithmetic))
+    | _, _, _ => (st, "bad-op")
+  | "wgeom", [pool, d0, d1, now, a, b, q] =>
+    match pool.toNat?, [now, a, b].mapM String.toInt?, parseBool q with
+    | some pool, some [now, a, b], some q => (st, showTwap (getTwapW st.w ⟨pool, d0, d1⟩ now a b q .geometric))
+    | _, _, _ => (st, "bad-op")
+  | "wdump", [pool, d0, d1] =>
+    match pool.toNat? with
+    | some pool =>
+      match st.w.get ⟨pool, d0, d1⟩ with
+      | some s => (st, (match s.recent with | some r => showRec r | none => "-") ++ "|" ++ ";".intercalate (s.hist.map showRec))
+      | none => (st, "-|")
+    | none => (st, "bad-op")
   | "create", [t, h, sp0, sp1, e] =>
     match [t, h, sp0, sp1].mapM String.toInt?, parseBool e with
     | some [t, h, sp0, sp1], some e =>
       let s' := create st.s t h sp0 sp1 e
-      ({ s := s' }, match s'.recent with | some r => "ok " ++ showRec r | none => "err")
+      ({ st with s := s' }, match s'.recent with | some r => "ok " ++ showRec r | none => "err")
     | _, _ => (st, "bad-op")
   | "update", [t, h, sp0, sp1, e] =>
     match [t, h, sp0, sp1].mapM String.toInt?, parseBool e with
     | some [t, h, sp0, sp1], some e =>
       match update st.s t h sp0 sp1 e with
-      | .ok s' => ({ s := s' }, match s'.recent with | some r => "ok " ++ showRec r | none => "err")
+      | .ok s' => ({ st with s := s' }, match s'.recent with | some r => "ok " ++ showRec r | none => "err")
       | .err => (st, "err")
       | .panic => (st, "panic")
     | _, _ => (st, "bad-op")
   | "prune", [k] =>
     match k.toInt? with
-    | some k => let s' := prune st.s k; ({ s := s' }, s!"ok {s'.hist.length}")
+    | some k => let s' := prune st.s k; ({ st with s := s' }, s!"ok {s'.hist.length}")
     | none => (st, "bad-op")
   | "arith", [now, a, b, q] =>
     match [now, a, b].mapM String.toInt?, parseBool q with
@@ -79,7 +153,7 @@ def stepTwap (st : DrvState) (op : String) (args : List String) : DrvState × St
   | "exportimport", [] =>
     match exportImport st.s with
     | none => (st, "panic")
-    | some s' => ({ s := s' }, "ok")
+    | some s' => ({ st with s := s' }, "ok")
   | "dump", [] =>
     (st, (match st.s.recent with | some r => showRec r | none => "-") ++ "|" ++ ";".intercalate (st.s.hist.map showRec))
   | _, _ => (st, "bad-op")
